@@ -44,8 +44,24 @@ def _make_shadow():
     imports.append(name)
     return _FakeModule()
   Shadow = shadow(cutil.SafeUnpickler, extra_globals={'__import__': fake_import, 'sys': _FakeSys})
-  real = cutil.SafeUnpickler.PICKLE_SAFE
-  Shadow.PICKLE_SAFE = LinearMap([(k, LinearSet(sorted(v))) for k, v in sorted(real.items())])
+
+  def wrap(table):
+    # dict / set lookups hash (realise) a symbolic string: linear ==-maps with the same items;
+    # strings, tuples and lists keep their own `in` semantics
+    return LinearMap([(k, LinearSet(sorted(v)) if isinstance(v, (set, frozenset)) else v) for k, v in sorted(table.items())])
+
+  def is_table(v):
+    return isinstance(v, dict) and v and all(isinstance(k, str) for k in v)
+  # the allow-list lives on the class today; also wrap any string-keyed table the method can see at module level
+  for holder in (Shadow,):
+    for k, v in list(vars(holder).items()):
+      if is_table(v):
+        setattr(holder, k, wrap(v))
+  fc = vars(Shadow)['find_class']
+  ns = getattr(fc, '__func__', fc).__globals__
+  for k, v in list(ns.items()):
+    if is_table(v) and 'SAFE' in k.upper():
+      ns[k] = wrap(v)
   return Shadow, imports
 
 
@@ -219,6 +235,56 @@ def C13_no_fallback(which: int, proto: int) -> bool:
       drop_receiver(p)
 
 
+SPELLINGS = [('False', False), ('false', False), ('no', False), ('off', False), ('0', False), (None, False),
+             ('True', True), ('true', True), ('yes', True), ('on', True), ('1', True)]
+_CONF_DIR = None
+
+
+def C13_config(si: int, section_kind: int) -> bool:
+  """
+  pre: 0 <= si < len(SPELLINGS)
+  pre: 0 <= section_kind <= 1
+  post: __return__
+  """
+  # USE_INSECURE_UNPICKLER as the daemon reads it from carbon.conf: only an explicit true spelling switches
+  # the safe unpickler off
+  import carbon.conf as conf
+  from vp_lib.api import pick
+  global _CONF_DIR
+  text, want = pick(SPELLINGS, si)
+  section = ['cache', 'cache:b'][section_kind]
+  path = _CONF_FILES[(si, section_kind)]
+  st = conf.Settings()
+  st.update(conf.defaults)
+  st.readFrom(path, 'cache')
+  if section_kind == 1:
+    st.readFrom(path, 'cache:b')
+  cover('read')
+  u = cutil.get_unpickler(insecure=st.USE_INSECURE_UNPICKLER)
+  return (u is cutil.SafeUnpickler) == (not want) and bool(st.USE_INSECURE_UNPICKLER) == want
+
+
+def _gen_conf():
+  import os
+  from vp_lib.api import scratch_dir
+  d = scratch_dir('vp-c13-')
+  out = {}
+  for si, (text, want) in enumerate(SPELLINGS):
+    for kind in (0, 1):
+      path = os.path.join(d, 'carbon-%d-%d.conf' % (si, kind))
+      line = '' if text is None else 'USE_INSECURE_UNPICKLER = %s\n' % text
+      with open(path, 'w') as fh:
+        if kind == 0:
+          fh.write('[cache]\nMAX_CACHE_SIZE = inf\n%s' % line)
+        else:
+          fh.write('[cache]\nMAX_CACHE_SIZE = inf\n\n[cache:b]\n%s' % line)
+      out[(si, kind)] = path
+  return out
+
+
+_CONF_FILES = _gen_conf()
+
+
 def C13_default_setting() -> bool:
   """
   post: __return__
@@ -242,6 +308,9 @@ HARNESSES = [
     assumptions=['the safe unpickler is replaced by a stub that raises a symbolic choice of exception class or returns data; '
                  'the name `pickle` inside carbon.protocols is replaced by a proxy whose unpickling entry points are canaries '
                  '(pickle.dumps for the query response stays real)']),
+  H('C13_config', quick=dict(timeout=120), covers=['read'],
+    encodes=['carbon.conf:Settings.readFrom (type coercion of USE_INSECURE_UNPICKLER)', 'carbon.util:get_unpickler'],
+    assumptions=['carbon.conf files with the setting spelled %d ways (or absent) in [cache] or an instance section, symbolic index' % len(SPELLINGS)]),
   H('C13_default_setting', quick=dict(timeout=30), encodes=['carbon.conf:defaults']),
 ]
 
